@@ -171,7 +171,11 @@ func dispatchBySSA(fn *ssa.Function) []*ssaDispatch {
 			s := ff.at[c]
 			for v := range ff.ids {
 				bo, ok := v.(*ssa.BinOp)
-				if !ok || bo.Op != token.EQL || s == nil || !s.facts[fact{ff.canon(s, bo), fTRUE, ""}] {
+				if !ok || s == nil {
+					continue
+				}
+				// `a == b` known true, or `a != b` known false
+				if !(bo.Op == token.EQL && s.facts[fact{ff.canon(s, bo), fTRUE, ""}]) && !(bo.Op == token.NEQ && s.facts[fact{ff.canon(s, bo), fFALSE, ""}]) {
 					continue
 				}
 				subj, other := bo.X, bo.Y
